@@ -13,15 +13,27 @@
   The basic codes: `distance_basic_five`, `distance_basic_steane` (exhaustive, kernel-evaluated; they ARE the
   full statement for these two fixed codes).
 
+  The ALL-SIZES LOWER BOUND (disjoint translates) is proved for the planar, toric, rotated planar and rotated
+  toric codes: `distance_lower_planar`, `distance_lower_toric`, `distance_lower_rotatedplanar`,
+  `distance_lower_rotatedtoric` (every operator of length 2n that commutes with all stabilizer generators and
+  anticommutes with a supplied logical has weight ≥ min R C; rectangles and the 2×N strips included), and with
+  `distance_attained_*` (whose C07 hypotheses are discharged from Props/C07: `planar_valid`, `toric_valid`,
+  `rotated_planar_valid`, `rtoric_valid`, `logical_pairing`) the four theorems `planar_isDistance`,
+  `toric_isDistance`, `rotatedplanar_isDistance`, `rotatedtoric_isDistance : IsDistance … (min R C)` for ALL
+  constructible sizes.
+  Proof (Lemmas/DistanceLower*.lean): for an operator `e` in the normaliser, commutation with the generators of
+  one strip between two neighbouring translates (columns / rows) of a logical operator makes the parity of the
+  relevant bits of `e` equal on both translates — the generators telescope (`strip_parity`, planar / toric) or
+  pair up the sites of both translates (`strip_pairs_pad`, `strip_pairs_periodic`, rotated codes) — so if `e`
+  anticommutes with the logical it has a set bit on each of the C (resp. R) pairwise disjoint translates
+  (`wt_ge_of_grid`, `wt_ge_of_disjoint`).
+
   STATED, NOT PROVED:
-  * `distance_lower_planar` (all R, C ≥ 2): for every `e` of length `2 n` with
-      `IsLogical (Planar.stabilizers R C) [Planar.logicalX R C, Planar.logicalZ R C] e`,  `min R C ≤ wt e`
-    — the disjoint-translates argument of DESIGN.md section 7 (the C column translates of X̄ are pairwise
-    disjoint and each differs from X̄ by a product of vertex operators; an operator in the normaliser whose
-    Z-part anticommutes with X̄ anticommutes with every translate, hence meets C disjoint supports).
-    Likewise `distance_lower_toric`, and the rotated / colour families.  Meanwhile the lower bound is decided
-    per size by the verified search on the real matrices (harness, exhaustive within the budget) and by
-    `distance_*_small_bounded` in the kernel.
+  * the lower bound for the colour 6.6.6 code beyond the kernel-evaluated size (`distance_color666_small_bounded`):
+    for all odd L ≥ 3 and every `e` of length `2 n` with
+      `IsLogical (Color666.stabilizers L) [Color666.logicalX L, Color666.logicalZ L] e`,  `L ≤ wt e`.
+    Meanwhile it is decided per size by the verified search on the real matrices (harness, exhaustive within
+    the budget).
   * `normaliser_complete` (F6(b)): for `S` of rank `n − k` and `2k` logicals with the canonical commutation
     relations, `NormaliserComplete n S L`.  It is used as a hypothesis in `isDistanceSpan_of_isDistance`; the
     other direction (`cert_not_in_span`) is proved.
@@ -29,6 +41,14 @@
 import QecVerif.Lemmas.Distance
 import QecVerif.Lemmas.DistanceWeights
 import QecVerif.Model.Basic
+import QecVerif.Lemmas.DistanceLowerPlanar
+import QecVerif.Lemmas.DistanceLowerToric
+import QecVerif.Lemmas.DistanceLowerRotatedPlanar
+import QecVerif.Lemmas.DistanceLowerRotatedToric
+import QecVerif.Props.C07.Planar
+import QecVerif.Props.C07.Toric
+import QecVerif.Props.C07.RotatedPlanar
+import QecVerif.Props.C07.RotatedToric
 namespace Qec.C08
 open Qec Qec.Distance
 
@@ -242,6 +262,109 @@ theorem distance_attained_color666 (L : Int) (hL : 3 ≤ L) (hodd : L % 2 = 1)
   obtain ⟨w1, _, hd⟩ := logical_weights_color666 L hL hodd
   exact ⟨_, color666_logicalX_len L hL hodd, by rw [w1, hd], h_commX, Color666.logicalZ L, by simp, h_pair⟩
 
+/-! ### the all-sizes lower bound (disjoint translates) and the distance of the planar and toric codes -/
+
+/-- **planar, all R, C ≥ 2**: every operator that commutes with all stabilizer generators and anticommutes with
+    a supplied logical has weight at least `min R C` (rectangles included) -/
+theorem distance_lower_planar (R C : Int) (hR : 2 ≤ R) (hC : 2 ≤ C) (e : BVec)
+    (he : e.length = 2 * (Planar.nQubits R C).toNat)
+    (h : IsLogical (Planar.stabilizers R C) [Planar.logicalX R C, Planar.logicalZ R C] e) :
+    min R C ≤ (wt e : Int) :=
+  DistLower.Planar.lower R C hR hC e he h
+
+/-- **toric, all R, C ≥ 2**: the same for the toric code (k = 2, all four supplied logicals) -/
+theorem distance_lower_toric (R C : Int) (hR : 2 ≤ R) (hC : 2 ≤ C) (e : BVec)
+    (he : e.length = 2 * (Toric.nQubits R C).toNat)
+    (h : IsLogical (Toric.stabilizers R C) (Toric.logicalXs R C ++ Toric.logicalZs R C) e) :
+    min R C ≤ (wt e : Int) :=
+  DistLower.Toric.lower R C hR hC e he h
+
+/-- **the advertised distance of the planar code is its true minimum distance, for every size** (no hypotheses
+    left: C07's commutation and pairing facts are taken from Props/C07/Planar.lean) -/
+theorem planar_isDistance (R C : Int) (hR : 2 ≤ R) (hC : 2 ≤ C) :
+    IsDistance (Planar.nQubits R C).toNat (Planar.stabilizers R C) [Planar.logicalX R C, Planar.logicalZ R C]
+      (Planar.nkd R C).2.2.toNat ∧ (Planar.nkd R C).2.2 = min R C := by
+  have v := C07.Planar.planar_valid R C hR hC
+  have hcX := DistLower.commAll_of_rows _ _ _ v.len_S (planar_logicalX_len R C hR hC)
+    (fun s hs => v.stab_comm_Lx s hs _ (List.mem_singleton.mpr rfl))
+  have hcZ := DistLower.commAll_of_rows _ _ _ v.len_S (planar_logicalZ_len R C hR hC)
+    (fun s hs => v.stab_comm_Lz s hs _ (List.mem_singleton.mpr rfl))
+  obtain ⟨e, he, hw, hlog⟩ := distance_attained_planar R C hR hC hcX hcZ (C07.Planar.logical_pairing R C hR hC).1
+  refine ⟨⟨⟨e, he, by omega, hlog⟩, fun e' he' hl' => ?_⟩, rfl⟩
+  have := distance_lower_planar R C hR hC e' he' hl'
+  simp only [Planar.nkd]
+  omega
+
+/-- **the advertised distance of the toric code is its true minimum distance, for every size** -/
+theorem toric_isDistance (R C : Int) (hR : 2 ≤ R) (hC : 2 ≤ C) :
+    IsDistance (Toric.nQubits R C).toNat (Toric.stabilizers R C) (Toric.logicalXs R C ++ Toric.logicalZs R C)
+      (Toric.nkd R C).2.2.toNat ∧ (Toric.nkd R C).2.2 = min R C := by
+  have v := C07.Toric.toric_valid R C hR hC
+  have hp := (C07.Toric.logical_pairing R C hR hC).1
+  have hc1 := DistLower.commAll_of_rows _ _ _ v.len_S (toric_logicalX1_len R C hR hC)
+    (fun s hs => v.stab_comm_Lx s hs _ (by simp [Toric.logicalXs]))
+  have hc2 := DistLower.commAll_of_rows _ _ _ v.len_S (toric_logicalX2_len R C hR hC)
+    (fun s hs => v.stab_comm_Lx s hs _ (by simp [Toric.logicalXs]))
+  obtain ⟨e, he, hw, hlog⟩ := distance_attained_toric R C hR hC hc1 hc2
+    (by simpa [Toric.logicalXs, Toric.logicalZs] using hp 0 (by omega) 0 (by omega))
+    (by simpa [Toric.logicalXs, Toric.logicalZs] using hp 1 (by omega) 1 (by omega))
+  refine ⟨⟨⟨e, he, by omega, hlog⟩, fun e' he' hl' => ?_⟩, rfl⟩
+  have := distance_lower_toric R C hR hC e' he' hl'
+  simp only [Toric.nkd]
+  omega
+
+/-- **rotated planar, all R, C ≥ 3**: weight at least `min R C` -/
+theorem distance_lower_rotatedplanar (R C : Int) (hR : 3 ≤ R) (hC : 3 ≤ C) (e : BVec)
+    (he : e.length = 2 * (RotatedPlanar.nQubits R C).toNat)
+    (h : IsLogical (RotatedPlanar.stabilizers R C) [RotatedPlanar.logicalX R C, RotatedPlanar.logicalZ R C] e) :
+    min R C ≤ (wt e : Int) :=
+  DistLower.RotatedPlanar.lower R C hR hC e he h
+
+/-- **rotated toric, all even R, C ≥ 2** (the constructible sizes, the 2×N strips included): weight at least
+    `min R C` -/
+theorem distance_lower_rotatedtoric (R C : Int) (hR : 2 ≤ R) (hC : 2 ≤ C) (hRe : R % 2 = 0) (hCe : C % 2 = 0)
+    (e : BVec) (he : e.length = 2 * (RotatedToric.nQubits R C).toNat)
+    (h : IsLogical (RotatedToric.stabilizers R C) (RotatedToric.logicalXs R C ++ RotatedToric.logicalZs R C) e) :
+    min R C ≤ (wt e : Int) :=
+  DistLower.RotatedToric.lower R C hR hC hRe hCe e he h
+
+/-- **the advertised distance of the rotated planar code is its true minimum distance, for every size** -/
+theorem rotatedplanar_isDistance (R C : Int) (hR : 3 ≤ R) (hC : 3 ≤ C) :
+    IsDistance (RotatedPlanar.nQubits R C).toNat (RotatedPlanar.stabilizers R C)
+      [RotatedPlanar.logicalX R C, RotatedPlanar.logicalZ R C] (RotatedPlanar.nkd R C).2.2.toNat ∧
+    (RotatedPlanar.nkd R C).2.2 = min R C := by
+  have v := C07.RotatedPlanar.rotated_planar_valid R C hR hC
+  have hcX := DistLower.commAll_of_rows _ _ _ v.len_S (rotatedplanar_logicalX_len R C hR hC)
+    (fun s hs => v.stab_comm_Lx s hs _ (List.mem_singleton.mpr rfl))
+  have hcZ := DistLower.commAll_of_rows _ _ _ v.len_S (rotatedplanar_logicalZ_len R C hR hC)
+    (fun s hs => v.stab_comm_Lz s hs _ (List.mem_singleton.mpr rfl))
+  obtain ⟨e, he, hw, hlog⟩ := distance_attained_rotatedplanar R C hR hC hcX hcZ
+    (C07.RotatedPlanar.logical_pairing R C hR hC).1
+  refine ⟨⟨⟨e, he, by omega, hlog⟩, fun e' he' hl' => ?_⟩, rfl⟩
+  have := distance_lower_rotatedplanar R C hR hC e' he' hl'
+  simp only [RotatedPlanar.nkd]
+  omega
+
+/-- **the advertised distance of the rotated toric code is its true minimum distance, for every (even) size** -/
+theorem rotatedtoric_isDistance (R C : Int) (hR : 2 ≤ R) (hC : 2 ≤ C) (hRe : R % 2 = 0) (hCe : C % 2 = 0) :
+    IsDistance (RotatedToric.nQubits R C).toNat (RotatedToric.stabilizers R C)
+      (RotatedToric.logicalXs R C ++ RotatedToric.logicalZs R C) (RotatedToric.nkd R C).2.2.toNat ∧
+    (RotatedToric.nkd R C).2.2 = min R C := by
+  have hS : RotatedToricCode.Size R C := ⟨hR, hC, hRe, hCe⟩
+  have v := C07.RotatedToric.rtoric_valid R C hS
+  have hp := (C07.RotatedToric.logical_pairing R C hS).1
+  have hc1 := DistLower.commAll_of_rows _ _ _ v.len_S (rotatedtoric_logicalX1_len R C hR hC)
+    (fun s hs => v.stab_comm_Lx s hs _ (by simp [RotatedToric.logicalXs]))
+  have hc2 := DistLower.commAll_of_rows _ _ _ v.len_S (rotatedtoric_logicalX2_len R C hR hC)
+    (fun s hs => v.stab_comm_Lx s hs _ (by simp [RotatedToric.logicalXs]))
+  obtain ⟨e, he, hw, hlog⟩ := distance_attained_rotatedtoric R C hR hC hc1 hc2
+    (by simpa [RotatedToric.logicalXs, RotatedToric.logicalZs] using hp 0 (by omega) 0 (by omega))
+    (by simpa [RotatedToric.logicalXs, RotatedToric.logicalZs] using hp 1 (by omega) 1 (by omega))
+  refine ⟨⟨⟨e, he, by omega, hlog⟩, fun e' he' hl' => ?_⟩, rfl⟩
+  have := distance_lower_rotatedtoric R C hR hC hRe hCe e' he' hl'
+  simp only [RotatedToric.nkd]
+  omega
+
 /-! ### the basic codes: exhaustive, kernel-evaluated (the full statement for these fixed codes) -/
 
 /-- five-qubit code: distance 3 — every one of the Paulis of weight < 3 is checked, and a weight-3 non-trivial
@@ -304,5 +427,16 @@ example : (lightLogical? 7 Basic.steane.stabilizers (Basic.steane.logicalXs ++ B
     = true := by decide +kernel
 example : inNormaliser Basic.fiveQubit.stabilizers (Basic.fiveQubit.logicalXs ++ Basic.fiveQubit.logicalZs) = true := by
   decide +kernel
+
+-- the lower-bound theorems are not vacuous: a non-trivial logical of the 3×5 planar code (its logical X)
+example : IsLogical (Planar.stabilizers 3 5) [Planar.logicalX 3 5, Planar.logicalZ 3 5] (Planar.logicalX 3 5) :=
+  (isLogicalCert_iff _ _ _).mp (by decide +kernel)
+example : IsLogical (Toric.stabilizers 2 3) (Toric.logicalXs 2 3 ++ Toric.logicalZs 2 3) (Toric.logicalZ2 2 3) :=
+  (isLogicalCert_iff _ _ _).mp (by decide +kernel)
+
+example : IsLogical (RotatedPlanar.stabilizers 3 4) [RotatedPlanar.logicalX 3 4, RotatedPlanar.logicalZ 3 4]
+    (RotatedPlanar.logicalZ 3 4) := (isLogicalCert_iff _ _ _).mp (by decide +kernel)
+example : IsLogical (RotatedToric.stabilizers 2 4) (RotatedToric.logicalXs 2 4 ++ RotatedToric.logicalZs 2 4)
+    (RotatedToric.logicalX1 2 4) := (isLogicalCert_iff _ _ _).mp (by decide +kernel)
 
 end Qec.C08
